@@ -17,6 +17,24 @@ def kid(a, c):
     return "(%s, %s)" % (cN(a), cN(c))
 
 
+def chain_term(chain):
+    return cL(["mkCO %s %s %s %s %s %s" % (kid(d["key"][0], d["key"][1]), cN(d["value"]), cN(d["height"]),
+                                            cN(d["lock"]), cB(d["cb"]), cN(d["mmr"])) for d in chain])
+
+
+def xop_terms(op):
+    """One harness op record -> list of Coq `xop` terms (LedgerX.v)."""
+    k = op["k"]
+    # owner::scan = full refresh of the active account, then the scan proper
+    if k == "restore":
+        return ["XReset", "XOp (%s)" % refresh_term(op["parent"], True, op["view"]),
+                "XScan %s false" % chain_term(op["chain"])]
+    if k == "scan":
+        return ["XOp (%s)" % refresh_term(op["parent"], True, op["view"]),
+                "XScan %s %s" % (chain_term(op["chain"]), cB(op["del"]))]
+    return ["XOp (%s)" % t for t in op_terms(op)]
+
+
 def op_terms(op):
     """One harness op record -> list of Coq `op` terms (a harness op may be several model ops)."""
     k = op["k"]
@@ -135,12 +153,15 @@ def model_traces(prop, rows):
                 s["op"]["_refused_early"] = True
             if s["op"]["k"] == "init_send" and s["rc"] == [1, 19]:
                 s["op"]["_refused_early"] = True
-            t = op_terms(s["op"])
+            t = xop_terms(s["op"])
             ops.extend(t)
             lay.append(len(t))
         terms.append(cL(ops))
         layout.append(lay)
-    res = vlib.coq_eval(prop, "From GW Require Import Ledger.", "(trace empty_wallet)", terms, shard=8)
+    ok, log = vlib.coq_make(["theories/LedgerX.vo"])
+    if not ok:
+        raise vlib.Infra("coq build of theories/LedgerX.vo failed: " + log[-2000:])
+    res = vlib.coq_eval(prop, "From GW Require Import LedgerX.", "(xtrace empty_wallet)", terms, shard=8)
     out = []
     for tr, lay in zip(res, layout):
         i, steps = 0, []
@@ -266,7 +287,7 @@ def oracle_c05(rows):
                     reserved[(new[0]["parent"], new[0]["id"])] = {
                         "before": sv_map(prev), "ins": s["extra"].get("ctx_inputs") or [], "refreshed": False,
                         "keys_before": set(sv_map(prev))}
-            if k in ("refresh", "init_send", "process_invoice", "update_state"):   # every operation that refreshes first
+            if k in ("refresh", "init_send", "process_invoice", "update_state", "scan", "restore"):   # every operation that refreshes first
                 for v in reserved.values():
                     v["refreshed"] = True
             if prev is not None and k == "cancel":
@@ -352,7 +373,11 @@ def oracle_c07(rows):
                     fails.append(_fail(r, idx, "foreign %s consumed a private context" % k))
                 sp0, sp1 = spendable(prev), spendable(snap)
                 if sp0 is not None and sp1 is not None and sp1 < sp0:
-                    fails.append(_fail(r, idx, "foreign %s decreased spendable %d -> %d" % (k, sp0, sp1)))
+                    # (the known late-lock reservation shows here too: the inputs it locks are no longer spendable)
+                    late = k == "finalize" and any(o["status"] != 2 and key in no and no[key]["status"] == 2
+                                                   for key, o in po.items())
+                    fails.append(_fail(r, idx, "foreign %s decreased spendable %d -> %d%s"
+                                       % (k, sp0, sp1, " [late-lock]" if late else "")))
                 if k == "receive" and s["rc"] == [0]:
                     added = [o for key, o in no.items() if key not in po]
                     if len(added) != 1 or added[0]["status"] != 0 or int(added[0]["value"]) != int(s["op"]["amount"]):
@@ -378,17 +403,28 @@ def oracle_c15(rows):
         # (acct, child) -> identity of the output: (coinbase?, value) — key and value fix the
         # commitment; which account a record is booked under is bookkeeping (C04), not identity
         ever = {}
+        excused = {}   # acct -> paths below this index were handed out by a wallet since lost
         prev = None
         for idx, s in enumerate(r["steps"]):
             snap = s["snap"]
+            if s["op"]["k"] == "restore":
+                # a wallet restored from its seed knows only what is on chain: a path handed out
+                # before the restore but not yet on chain may be handed out again (C15 promises the
+                # next path beyond every path FOUND) — and the earlier output may still reach the chain
+                # later. Paths below the counters the lost wallet had reached are excused from here on.
+                if prev is not None:
+                    for c in prev["child"]:
+                        excused[c[0]] = max(excused.get(c[0], 0), c[1])
+                ever = {}
+                prev = None
             child = {c[0]: c[1] for c in snap["child"]}
             po = {(o["acct"], o["child"]): o for o in prev["outputs"]} if prev else {}
             for o in snap["outputs"]:
                 key = (o["acct"], o["child"])
                 ident = (o["cb"], o["value"])
-                if o["mmr"] is None and o["child"] >= child.get(o["acct"], 0):
+                if (o["mmr"] is None or s["op"]["k"] == "restore") and o["child"] >= child.get(o["acct"], 0):
                     fails.append(_fail(r, idx, "key %s not below the next-child counter %s" % (key, child.get(o["acct"], 0))))
-                if key in ever and ever[key] != ident:
+                if key in ever and ever[key] != ident and o["child"] >= excused.get(o["acct"], 0):
                     old = po.get(key)
                     candidate = o["cb"] and ever[key][0] and (old is None or old["status"] == 0)
                     if not candidate:
